@@ -82,7 +82,7 @@ def gen_static():
         add('c17_%s_div' % n, 'a: %s, b: %s' % (t, t), four(t, t, 'Div', False))
         add('c17_%s_rem' % n, 'a: %s, b: %s' % (t, t), four(t, t, 'Rem', True))
         add('c17_%s_scalar' % n, 'a: %s, s: R' % t, two('Mul', True) + ['    { ' + ' '.join(x.strip() for x in two('Div', True)) + ' }', '    vassert_eq("-&a", -&a, -a);'])
-    add('c17_basis2_mul', 'ta: R, tb: R', ['    let (a, b): (Basis2<R>, Basis2<R>) = (Rotation2::from_angle(Rad(ta)), Rotation2::from_angle(Rad(tb)));',
+    add('c17_basis2_mul', 'ta: R, d: Vector2<R>, up: Vector2<R>', ['    vmay_panic();', '    let (a, b): (Basis2<R>, Basis2<R>) = (Rotation2::from_angle(Rad(ta)), Rotation::look_at(d, up));',
                                             '    let base: Matrix2<R> = (a * b).into();', '    let f1: Matrix2<R> = (&a * b).into(); vassert_eq("&a * b", f1, base);',
                                             '    let f2: Matrix2<R> = (a * &b).into(); vassert_eq("a * &b", f2, base);', '    let f3: Matrix2<R> = (&a * &b).into(); vassert_eq("&a * &b", f3, base);'])
     add('c17_basis3_mul', 'qa: Quaternion<R>, qb: Quaternion<R>', ['    let (a, b) = (Basis3::from_quaternion(&qa), Basis3::from_quaternion(&qb));',
@@ -140,8 +140,9 @@ def gen_static():
     folds('c17_product_quat', 'Quaternion<R>', 'Quaternion::<R>::one()', '*', 'product', 3)
     folds('c17_sum_rad', 'Rad<R>', 'Rad::<R>::zero()', '+', 'sum')
     folds('c17_sum_deg', 'Deg<R>', 'Deg::<R>::zero()', '+', 'sum')
-    add('c17_product_basis2', 'ta: R, tb: R, tc: R', [
-        '    let (a, b, c): (Basis2<R>, Basis2<R>, Basis2<R>) = (Rotation2::from_angle(Rad(ta)), Rotation2::from_angle(Rad(tb)), Rotation2::from_angle(Rad(tc)));',
+    add('c17_product_basis2', 'ta: R, d: Vector2<R>, up: Vector2<R>, tc: R', [
+        '    // the middle factor comes from look_at and may be a reflection, so the factors need not commute',
+        '    let (a, b, c): (Basis2<R>, Basis2<R>, Basis2<R>) = (Rotation2::from_angle(Rad(ta)), Rotation::look_at(d, up), Rotation2::from_angle(Rad(tc)));',
         '    let want: Matrix2<R> = (((Basis2::<R>::one() * a) * b) * c).into();',
         '    let r1: Basis2<R> = [a, b, c].iter().product(); let r2: Basis2<R> = [a, b, c].into_iter().product();',
         '    let (m1, m2): (Matrix2<R>, Matrix2<R>) = (r1.into(), r2.into());',
